@@ -72,6 +72,36 @@ impl DirImage {
         }
     }
 
+    /// Make an existing WAL root directory equal to this image without re-creating it: files of
+    /// the image are overwritten, files the image does not have are removed (also the lock file).
+    pub fn materialise_over(&self, root: &Path) {
+        if !root.join("segments").is_dir() {
+            let _ = std::fs::remove_dir_all(root);
+            self.materialise(root);
+            return;
+        }
+        let put = |rel: &str, b: &Option<Vec<u8>>| match b {
+            Some(bytes) => std::fs::write(root.join(rel), bytes).expect("write image file"),
+            None => {
+                let _ = std::fs::remove_file(root.join(rel));
+            }
+        };
+        // stray segment files (a recovery may have produced other names) are removed first
+        if let Ok(rd) = std::fs::read_dir(root.join("segments")) {
+            for e in rd.flatten() {
+                if e.path() != root.join(SEGMENT_REL) {
+                    let _ = std::fs::remove_file(e.path());
+                }
+            }
+        }
+        put(SEGMENT_REL, &self.segment);
+        put(LEDGER_FILE, &self.ledger);
+        put(LEDGER_TMP, &self.ledger_tmp);
+        put(MANIFEST_FILE, &self.manifest);
+        put(MANIFEST_TMP, &self.manifest_tmp);
+        let _ = std::fs::remove_file(root.join("writer-epoch.lock"));
+    }
+
     /// Read the image back from a directory.
     pub fn read(root: &Path) -> DirImage {
         DirImage {
